@@ -13,7 +13,7 @@ use serde_json::{json, Value};
 use std::collections::{BTreeMap, HashSet};
 
 pub const PATHS: &[&str] = &["/a", "/A", "/a b", "/a%20b", "/é", "/a\"q", "/a<b>", "/a+b"];
-pub const PARAMS: &[&str] = &["a=1", "b=2", "a=3", "c=", "d", "e=x%20y", "f=x+y", "g=é", "utm_source=z", "ref=r", "B=2", "h=1%2B2"];
+pub const PARAMS: &[&str] = &["a=1", "b=2", "a=3", "c=", "d", "e=x%20y", "f=x+y", "g=é", "utm_source=z", "ref=r", "B=2", "h=1%2B2", "i=x%26"];
 
 #[derive(Clone, Debug, serde::Serialize, serde::Deserialize)]
 pub struct Case {
@@ -251,8 +251,9 @@ pub fn check_case(case: &Case) -> Vec<(String, String)> {
             }
         }
     }
-    // (2) different URLs do not match (distinct decoded keys, no encoded delimiters in values: our alphabet has none)
-    if distinct_keys {
+    // (2) different URLs do not match (distinct decoded keys, no encoded delimiters in values — the statement's precondition)
+    let encoded_delimiter = case.params.iter().any(|p| p.contains("%26") || p.contains("%3D"));
+    if distinct_keys && !encoded_delimiter {
         let mut others: Vec<(String, &str)> = Vec::new();
         for i in 0..case.params.len() {
             if rc.ignore_marketing_query_params && is_marketing(&rc, &case.params[i]) {
